@@ -5,7 +5,17 @@
 import PatchModel.Proto
 import PatchModel.Spec.Place
 import PatchModel.Model.Parse
+import PatchModel.Model.Cmdline
 open PatchModel PatchModel.Proto
+
+def showOB : OptionalBool → String | .unset => "unset" | .yes => "yes" | .no => "no"
+def showOptions (o : Options) : String :=
+  let b (x : Bool) : String := if x then "1" else "0"
+  let nl := match o.newlineOutput with | .native => "native" | .lf => "lf" | .crlf => "crlf" | .keep => "keep"
+  let rf := match o.rejectFormat with | .context => "context" | .unified => "unified" | .default => "default"
+  let ro := match o.readOnly with | .warn => "warn" | .ignore => "ignore" | .fail => "fail"
+  let qs := match o.quotingStyle with | .unset => "unset" | .literal => "literal" | .shell => "shell" | .shellAlways => "shell-always" | .c => "c"
+  s!"b={b o.saveBackup} c={b o.asContext} d={hex o.directory} D={hex o.define} e={b o.asEd} i={hex o.patchFile} l={b o.ignoreWhitespace} n={b o.asNormal} N={b o.ignoreReversed} o={hex o.outFile} p={o.strip} F={o.maxFuzz} R={b o.reverse} file={hex o.fileToPatch} r={hex o.rejectFile} f={b o.force} t={b o.batch} h={b o.showHelp} v={b o.showVersion} u={b o.asUnified} verbose={b o.verbose} dry={b o.dryRun} posix={b o.posix} bim={showOB o.backupIfMismatch} E={showOB o.removeEmptyFiles} nl={nl} rf={rf} ro={ro} qs={qs} z={hex o.backupSuffix} B={hex o.backupPrefix}"
 
 def showPatch (p : Patch) : String :=
   s!"{showFormat p.format} {showOperation p.operation} {hex p.indexPath} {hex p.prerequisite} {hex p.oldPath} {hex p.newPath} {hex p.oldTime} {hex p.newTime} {p.oldMode} {p.newMode} {p.hunks.length}"
@@ -93,6 +103,19 @@ def respond (req : List String) : Except String String :=
           else if S.any (fun (_, f') => f' < f) then pure "bad:fuzz-not-least"
           else if 0 ≤ guess && S.contains (guess.toNat, 0) && (p, f) != (guess.toNat, 0) then pure "bad:not-at-stated-place"
           else pure "ok" : P String).run' rest
+  | "cmdline" :: rest => (do
+      let argv ← pList pBytes; let pc ← pBool
+      let qs ← (do
+        match (← tok) with
+        | "-" => pure (none : Option Bytes)
+        | t => match t.toList with
+          | 'x' :: cs => match unhex cs with
+            | some b => pure (some b)
+            | none => throw "bad hex"
+          | _ => throw "bad env value")
+      pure (match commandLine optionTable argv { posixlyCorrect := pc, quotingStyle := qs } with
+        | .error e => "exn " ++ showExn e
+        | .ok o => "ok " ++ showOptions o) : P String).run' rest
   | "readlines" :: rest => (do
       let bytes ← pBytes
       let ls := splitLines bytes
